@@ -1,5 +1,6 @@
 """C01 — every spawned coroutine runs exactly once; join() reports its true outcome (structural clauses)."""
 from lib import *
+import witness
 from props import shared
 from props.shared import ao, atomic, A
 
@@ -10,6 +11,7 @@ EXPLANATION = ("Static rules over the drop-elaborated MIR of may/may_queue: (R-O
                "conditions, not the behaviour over all schedules.")
 NOT_DECIDED = "that the queues deliver every pushed coroutine (C03/C04), liveness, the generator crate's context switch"
 CONFIGS_QUICK = ["default"]
+NEEDS_TARGET = True
 CONFIGS_THOROUGH = ["default", "nosteal", "crossbeam", "rand", "bare"]
 
 def check(ctx):
@@ -61,3 +63,6 @@ def check(ctx):
     shared.join_rules(ctx)
     shared.worker_queue_confinement(ctx)
     shared.global_handoff(ctx)
+    if ctx.cfg == "default":
+        witness.run_witness(ctx, "c01_spawn", ctx.prog.extract_info["target"])
+        witness.run_witness(ctx, "c01_spawn_static", ctx.prog.extract_info["target"])
